@@ -101,6 +101,9 @@ def showPeer (p : Nat) (ps : PeerSt) : String :=
   let b (x : Bool) := if x then "1" else "0"
   s!"{p}[{showNats ps.conns.toList};{showSending ps.sending};{b ps.sendFull};{req};{b ps.wl.force};{ps.wl.synced}]"
 
+def showPeers (c : Client.State) : String :=
+  ",".intercalate (c.peers.toList.map fun pp => showPeer pp.1 pp.2)
+
 def showState (s : Node.State) : String :=
   let c := s.client
   let sv := s.server
